@@ -10,6 +10,24 @@ CLAIMED = {
          'proof in Coq (parser/printer inversion, reassembly induction) + correspondence + lr-tap'),
  'C04': ('7 C04', 'Coq theorems C04_grammar (dec_set (enc_set s) succeeds with nothing left over and matches the set: type, name, template labels, per object identity and per attribute ABSATR or count/code/units/values), C04_attribute, C04_value over Model/Eflr.v and the strict component reader Model/EflrReader.v, by structural induction over objects and attributes; tie: K-attr correspondence (Python-side attribute state -> model encoder == tapped EFLR body) and strict reader judgement of every tapped EFLR body, over random specifications of all 22 object types',
          'proof in Coq (parser/printer inversion for the component grammar) + byte-exact correspondence + verified strict component reader as oracle'),
+ 'C03': ('7 C03', 'Coq theorems C03_decode (dec_fdata (fdata_body o n slots) = (o, n, slots), nothing left), C03_rows / C03_count (one type-0 IFLR per row, numbered in input order, never dropped), C03_file (C02 instantiated); values are bit patterns; tie: frames over 8 dtypes x byte order x width x layout x cast x source kind, every frame-data record read back by the strict reader decoded with the declared layout and compared bit for bit with numpy-computed expectations, and with the model encoder',
+         'proof in Coq (decoder inversion by induction over slots and elements) + reader judgement of real files + correspondence'),
+ 'C05': ('7 C05', 'Coq theorems C05_assign_value / C05_assign_units (an assignment stores exactly the converter result in exactly the assigned part; everything else unchanged) and C05_value_readback (stored value -> decoded value) over Model/Convert.v + Model/Builder.v (schema regenerated from /repo); the end-to-end claim is checked per run: K-api byte-exact correspondence of whole programs with the model, and every decoded attribute of implementation output compared with the last accepted assignment computed from the operation list',
+         'proof in Coq (frame rule of assignment, value read-back) + byte-exact K-api correspondence + reader judgement against op-list expectations (partial: no single end-to-end theorem)'),
+ 'C07': ('7 C07', 'Coq theorems C07_identity_in_set / C07_copy_numbers: in every reachable builder state (induction over all operation lists incl. rejected calls) the copy number of an object is the number of earlier same-named objects of its set, hence (name, copy) is injective per set; C07_reference_roundtrip; refuted across named sets (C07_refuted_named_sets = known finding D13); tie: K-api correspondence, decoded identities / references / origins of implementation output',
+         'proof in Coq (invariant by induction over operation lists) + K-api correspondence + reader judgement'),
+ 'C08': ('7 C08', 'Coq theorems C08_descr (code = written dtype, DIMENSION = per-row shape, ELEMENT-LIMIT bounds it, user values kept or rejected), C08_length (record length formula), C08_slicing; tie: decoded CHANNEL/FRAME objects and FDATA lengths of real files vs Model/Data.v channel_setup over casts, widths, user dimension/limit consistent or not, shared / aliased / orphan channels',
+         'proof in Coq + reader judgement of real files + correspondence of the descriptor logic'),
+ 'C09': ('7 C09', 'Coq theorems C09_order (records of a logical file = FILE-HEADER record, then explicit records only, then indirect records only) and C09_no_empty_sets over Model/Write.v lf_records; tie: K-api correspondence and order judgement of the decoded record sequence of implementation output (header fields, defining origin FILE-ID/FILE-SET-NUMBER, each set once, none empty, references defined before use)',
+         'proof in Coq (structure of the record generator) + K-api correspondence + reader judgement'),
+ 'C14': ('7 C14', 'Coq theorems C14_new_file_is_fresh and C14_mode_is_the_only_process_state over the cache-free model; decisive part: in-process histories (several files, reused names, 0.0/-0.0, 1/1.0/True, queries, rewrites) compared byte for byte with the model AND with a fresh subprocess writing the last specification alone',
+         'proof in Coq (cache-free denotation, process state = mode flag) + differential execution against a fresh subprocess (partial: rewriting one DLISFile with different data is known limitation D9)'),
+ 'C17': ('7 C17', 'Coq theorems C17_restored (any balanced sequence of enter/leave, nested, around any other operations, restores flag and stack: induction on the nesting), C17_only_contexts_change_mode, C17_names_enforced; tie: K-api correspondence of programs with contexts, flag after every program, decoded restrictions of files written in the mode, exception / decorator / nested forms on the real API',
+         'proof in Coq (induction over balanced operation sequences) + K-api correspondence + reader judgement'),
+ 'C18': ('7 C18', 'Coq theorems C18_frames (per-frame numbering from 1) and C18_lf_records; the rejection clause is refuted in the model (C18_refuted_shared_default_sets) and recorded as known finding D12; tie: multi-logical-file programs (distinct / default / partially shared set names, interleaved calls): K-api correspondence and per-logical-file inventories of decoded implementation output',
+         'proof in Coq + K-api correspondence + reader judgement (known finding D12 for shared set names)'),
+ 'C20': ('7 C20', 'Coq theorem C20_reject: every rejected operation (add_* of every type at every rejection point, assignment, add_logical_file) leaves objects, registration lists, no-format data, data dictionary, headers and mode unchanged (only empty sets may appear); C20_copy_numbers; tie: K-api correspondence and, for every program with rejected calls, decoded inventory equality with the same history without them',
+         'proof in Coq (case analysis of the step function) + K-api correspondence + differential histories'),
  'C06': ('7 C06', 'Coq theorems C06_roundtrip_<code> and C06_domain_<code> for all 15 codes over their whole value domain (lia with euclidean division); tie: K-prim correspondence on range edges, form boundaries and random values, decoder judgement of every emitted byte string',
          'proof in Coq (lia over Z, per-code round trip and exact domain) + correspondence'),
  'C10': ('7 C10', 'Coq theorems C10_out_invisible / C10_file (buffer invariant by induction over the record list: final file, reported total, every flush snapshot is label ++ prefix of records), C10_in_invisible (chunking is the identity); tie: every output chunk size vrl..file+1 with flush-tap snapshots, input chunk sweep',
